@@ -143,6 +143,9 @@ func runC11(c *Ctx) {
 				c.Check(!has(a, "Stopped"), "Stopped only from Stopping: no edge from "+a, tp, "absent", a+"→Stopped allowed")
 			}
 		}
+		for _, a := range []string{"OK", "RecoverableError"} {
+			c.Check(!has("Stopping", a), "shutdown does not go back to a running status: no edge Stopping→"+a, tp, "absent", "Stopping→"+a+" allowed (not an edge of the documented diagram): a component that reports one failed operation while it shuts down has the graph's `Stopped` rejected (RecoverableError has no edge to Stopped) and stays in RecoverableError for good – through RecoverableError→OK it is shown as running again and Stopping can be delivered a second time")
+		}
 		c.Check(has("None", "Starting"), "None→Starting present", tp, "present", "missing: no component could ever start reporting")
 		c.Check(has("Starting", "OK"), "Starting→OK present", tp, "present", "missing")
 		c.Check(has("PermanentError", "Stopping"), "PermanentError→Stopping present", tp, "present", "missing")
@@ -516,4 +519,5 @@ func runC11(c *Ctx) {
 	runC11Round5(c)
 	runC11HistoryComplete(c)
 	runC11SharedStopErr(c)
+	runC11ExtensionHost(c)
 }
